@@ -119,7 +119,7 @@ def _size(rng, hi):
 
 def generate(ctx):
     rng = ctx.rng
-    n = ctx.n(1500, 100000)
+    n = ctx.n(8000, 100000)
     rclss = ["none", "partial", "dup-fixed", "dup-mobile", "dup-pair", "total", "total-dup"]
     for idx in range(n):
         nf, nm = _size(rng, 40), _size(rng, 25)
